@@ -126,8 +126,31 @@ def build_sessions(gens, exact=True):
         else:
             s["descs"] = [d["g"]]
             s["script"] = both_script(d.get("solvemode", d["stopping"]), len(sessions))
+            if s["tid"] % 5 == 2:
+                s["descs"] = [odd_names(d["g"])]
         sessions.append(s)
     return sessions
+
+
+ODD_NAMES = ["go", "go left", "g", " ", "Go", "go  left", "left.go", "go_", "-", "0"]
+
+
+def odd_names(g):
+    """The same game with action names that are legal but unusual: spaces, a single blank, names that
+    are prefixes of each other, a digit (an injective renaming; state by state the order of first
+    appearance decides, so one name means different things in different states, as in the originals)."""
+    names = []
+    for row, o in zip(g["tr"], g["owner"]):
+        if o != "PR":
+            for e in row:
+                if e["a"] not in names:
+                    names.append(e["a"])
+    if len(names) > len(ODD_NAMES):
+        return g
+    m = {a: ODD_NAMES[i] for i, a in enumerate(names)}
+    h = dict(g)
+    h["tr"] = [[dict(e, a=m[e["a"]]) if o != "PR" else dict(e) for e in row] for row, o in zip(g["tr"], g["owner"])]
+    return h
 
 
 BIG_PROPS = ("C01", "C02", "C03", "C04", "C05", "C06", "C10", "C13")
